@@ -101,6 +101,9 @@ def s_index(I, w, frame, site, fn, args, term):
     I.obligation(w, frame, site, 'slice-range', [le(lo, hi), le(hi, ln)],
                  f"range {lo.pretty()}..{hi.pretty()} within len {ln.pretty()}",
                  {'range': (lo, hi), 'of': (base, start, ln)})
+    sh = I.cfg.get('slice_hook')
+    if sh:
+        sh(I, w, frame, site, base, start + lo, start + hi)      # absolute window [from, to) of the object `base`
     return [(w, ('slice', base, start + lo, hi - lo))]
 
 
@@ -134,6 +137,51 @@ def s_last(I, w, frame, site, fn, args, term):
     w2 = w.fork()
     if I.assume(w2, ('cmp', 'lt', Lin.c(0), s[3]), True):
         out.append((w2, ('enum', ((1, (('ref', s[1].ext(('i', s[2] + s[3] - 1))),)),))))
+    return out
+
+
+def s_first(I, w, frame, site, fn, args, term):
+    s = args[0]
+    if s[0] != 'slice':
+        return None
+    out = []
+    w1 = w.fork()
+    if I.assume(w1, ('cmp', 'eq', s[3], Lin.c(0)), True):
+        out.append((w1, ('enum', ((0, ()),))))
+    w2 = w.fork()
+    if I.assume(w2, ('cmp', 'lt', Lin.c(0), s[3]), True):
+        out.append((w2, ('enum', ((1, (('ref', s[1].ext(('i', s[2]))),)),))))
+    return out
+
+
+def s_slice_is_empty(I, w, frame, site, fn, args, term):
+    s = args[0]
+    if s[0] != 'slice':
+        return None
+    return [(w, ('bool', ('cmp', 'eq', s[3], Lin.c(0))))]
+
+
+def s_split_at(I, w, frame, site, fn, args, term):
+    # slice.split_at(mid) / split_at_mut(mid): panics if mid > len; the two halves tile the slice
+    s, m = args[0], args[1]
+    if s[0] != 'slice' or m[0] != 'int':
+        return None
+    I.obligation(w, frame, site, 'slice-range', [le(Lin.c(0), m[1]), le(m[1], s[3])],
+                 f"split_at {m[1].pretty()} within len {s[3].pretty()}", {'range': (Lin.c(0), m[1]), 'of': (s[1], s[2], s[3])})
+    return [(w, ('agg', (('slice', s[1], s[2], m[1]), ('slice', s[1], s[2] + m[1], s[3] - m[1]))))]
+
+
+def s_split_first(I, w, frame, site, fn, args, term):
+    s = args[0]
+    if s[0] != 'slice':
+        return None
+    out = []
+    w1 = w.fork()
+    if I.assume(w1, ('cmp', 'eq', s[3], Lin.c(0)), True):
+        out.append((w1, ('enum', ((0, ()),))))
+    w2 = w.fork()
+    if I.assume(w2, ('cmp', 'lt', Lin.c(0), s[3]), True):
+        out.append((w2, ('enum', ((1, (('agg', (('ref', s[1].ext(('i', s[2]))), ('slice', s[1], s[2] + 1, s[3] - 1))),)),))))
     return out
 
 
@@ -189,6 +237,11 @@ def s_identity(I, w, frame, site, fn, args, term):
     return [(w, args[0])]
 
 
+def s_unit(I, w, frame, site, fn, args, term):
+    # optimisation hints without effect (cold_path, assume, assert_unchecked)
+    return [(w, AI.UNIT)]
+
+
 def s_fold(I, w, frame, site, fn, args, term):
     dty = term['dest_ty']
     if dty['k'] == 'int':
@@ -211,6 +264,25 @@ def s_from_be_bytes(I, w, frame, site, fn, args, term):
             return [(w, ('int', Lin.atom(at)))]
         if c[0] == 'be':      # from_be_bytes(x.to_be_bytes())
             return [(w, ('int', c[1]))]
+        if c[0] == 'elems' and len(c[1]) == a[1] and all(e[0] == 'int' for e in c[1]):
+            # [buf[k], buf[k+1], ..]: the same big-endian word a slice-based read of buf[k..k+n] denotes; use the same atom
+            els = [e[1] for e in c[1]]
+            word = Lin.c(0)
+            for e in els:
+                word = word.scale(256) + e
+            infos = [ATOMS.info(e.terms[0][0]).defn if (len(e.terms) == 1 and e.const == 0 and e.terms[0][1] == 1) else None for e in els]
+            if all(d and d[0] == 'elem' and d[1] == infos[0][1] for d in infos) and \
+                    all(infos[i][2] == infos[0][2] + i for i in range(len(infos))):
+                tag = infos[0][1]
+                roots = [r for r, v in w.mem.items() if v[0] == 'seq' and v[4] == tag]
+                if len(roots) == 1 and roots[0] not in w.written:
+                    key = ('be', Loc(roots[0]), infos[0][2], a[1])
+                    nm = f"be{a[1]*8}({w.name_of(roots[0])}[{infos[0][2].pretty()}..])"
+                    at = ATOMS.fresh(nm, lo, hi, defn=key, key=key)
+                    w.store = w.store.add_eq(Lin.atom(at), word)
+                    return [(w, ('int', Lin.atom(at)))]
+            if all(w.store.entails(le(Lin.c(0), e)) and w.store.entails(le(e, Lin.c(255))) for e in els):
+                return [(w, ('int', word))]
     at = ATOMS.fresh('from_be', lo, hi, defn=('be_unknown', a))
     return [(w, ('int', Lin.atom(at)))]
 
@@ -327,6 +399,28 @@ def s_eq(I, w, frame, site, fn, args, term, negate=False):
             res = ('var', b[1], frozenset(sa))
         elif va == vb and _ground(va):
             res = ('c', True)
+        elif _zero_const_variant(vb) is not None or _zero_const_variant(va) is not None:
+            # comparison with a constant `Variant([0; n])`: the variant test and "all bytes are zero"; bytes are >= 0, so
+            # all-zero is the single linear fact sum == 0 — the same fact a byte-wise pattern match establishes
+            if _zero_const_variant(vb) is None:
+                a, b, va, vb = b, a, vb, va
+            v0, n0 = _zero_const_variant(vb)
+            pl = dict(va[1])[v0]
+            res = None
+            if len(pl) == 1 and pl[0][0] == 'arr' and pl[0][1] == n0:
+                total = Lin.c(0)
+                for i in range(n0):
+                    ev = I.read(w, a[1].ext(('d', v0), ('f', 0), ('i', Lin.c(i)))) if len(sa) == 1 else None
+                    if ev is None or ev[0] != 'int':
+                        total = None
+                        break
+                    total = total + ev[1]
+                if total is not None:
+                    res = ('cmp', 'eq', total, Lin.c(0))
+            if res is None:
+                k = ('eq', _valkey(va), _valkey(vb))
+                res = ('opq', k)
+                I.rec(frame, site[1], 'event', site, ('eqtest', k, a[1], va, b[1], vb))
         else:
             k = ('eq', _valkey(va), _valkey(vb))
             res = ('opq', k)
@@ -338,6 +432,22 @@ def s_eq(I, w, frame, site, fn, args, term, negate=False):
     if negate:
         res = ('not', res) if res[0] != 'c' else ('c', not res[1])
     return [(w, ('bool', res))]
+
+
+def _zero_const_variant(v):
+    """(variant, n) when v is the constant `Variant([0u8; n])`"""
+    if v[0] != 'enum' or len(v[1]) != 1:
+        return None
+    var, fs = v[1][0]
+    if len(fs) != 1 or fs[0][0] != 'arr':
+        return None
+    c = fs[0][2]
+    zero = ('int', Lin.c(0))
+    if c[0] == 'elems' and c[1] and all(e == zero for e in c[1]) and len(c[1]) == fs[0][1]:
+        return var, fs[0][1]
+    if c[0] == 'repeat' and c[1] == zero:
+        return var, fs[0][1]
+    return None
 
 
 def _ground(v):
@@ -570,12 +680,28 @@ def s_checked(op):
         if I.assume(w1, ('and', ('cmp', 'le', Lin.c(lo), r), ('cmp', 'le', r, Lin.c(hi))), True):
             out.append((w1, ('enum', ((1, (('int', r),)),))))
         if not I.in_range(w, r, lo, hi):
-            out.append((w.fork(), ('enum', ((0, ()),))))
+            w0 = w.fork()
+            # None means the exact result is out of range: when one side is impossible, it is the other one
+            feasible = True
+            if w0.store.entails(le(Lin.c(lo), r)):
+                feasible = I.assume(w0, ('cmp', 'lt', Lin.c(hi), r), True)
+            elif w0.store.entails(le(r, Lin.c(hi))):
+                feasible = I.assume(w0, ('cmp', 'lt', r, Lin.c(lo)), True)
+            if feasible:
+                out.append((w0, ('enum', ((0, ()),))))
         return out
     return h
 
 
 TABLE = {
+    'std::intrinsics::cold_path': s_unit,
+    'core::intrinsics::cold_path': s_unit,
+    'std::intrinsics::assume': s_unit,
+    'std::hint::assert_unchecked': s_unit,
+    'std::intrinsics::likely': s_identity,
+    'std::intrinsics::unlikely': s_identity,
+    'std::hint::likely': s_identity,
+    'std::hint::unlikely': s_identity,
     'std::cmp::min': _minmax(True),
     'std::cmp::max': _minmax(False),
     'core::cmp::min': _minmax(True),
@@ -590,6 +716,11 @@ TABLE = {
     'core::slice::index::index_mut': s_index,
     'core::slice::copy_from_slice': s_copy_from_slice,
     'core::slice::last': s_last,
+    'core::slice::first': s_first,
+    'core::slice::is_empty': s_slice_is_empty,
+    'core::slice::split_at': s_split_at,
+    'core::slice::split_at_mut': s_split_at,
+    'core::slice::split_first': s_split_first,
     'core::slice::iter': s_iter,
     "<&'a std::vec::Vec as std::iter::IntoIterator>::into_iter": s_iter,
     '<I as std::iter::IntoIterator>::into_iter': s_identity,
